@@ -41,6 +41,16 @@ CHECKS.update({
              "other backends' keyword sets are outside (no server); SQLite instantiates the assumed backend contract", "DESIGN.md §5 C06"),
     "C08": B("run-time contract on operators._escaped_like_impl and the compiled startswith/endswith/contains patterns: like_match(pattern, s, esc) <=> the literal prefix/suffix/substring relation, for all (other, s) <= 3 chars over {% _ / \\ ' a A} x 3 escapes x 12 operators, like_match validated against sqlite3 LIKE. Bounded exploration.",
              "each backend's LIKE == like_match (checked for SQLite only)", "DESIGN.md §5 C08"),
+    "C09": B("inverse-pair contract result_processor(bind_processor(v)) == v and exactly-once ghost counters for TypeDecorator, over 48 types on the SQLite dialect (processor pairs and a real in-memory sqlite3 INSERT/SELECT), 44 on DefaultDialect, 20 driver-independent types on 4 server dialects, 27 nesting contexts. Bounded exploration.",
+             "server-dialect processors that consume driver-specific Python types, drivers and servers are outside", "DESIGN.md §5 C09"),
+    "C37": B("two-object representation invariant (b in a.children <=> b.parent is a; symmetric membership; one-to-one uniqueness) evaluated after every operation of every in-memory sequence <= 3 (quick) / 4 (thorough) over 50/22/34 operations on o2m, o2o, m2m back_populates pairs, plus flush+expire+reload. Bounded exploration.",
+             "in-memory agreement only (plus SQLite reload); handlers recurse through the event system and are outside the pyvc subset", "DESIGN.md §5 C37"),
+    "C48": B("postconditions of InstanceState._modified_event / _commit_all (strong reference held while modified, released after commit) and database == model after dropping every reference + gc.collect() + commit, over all histories <= 4 (quick) / 5 (thorough) of 14 operations on SQLite memory. Bounded exploration.",
+             "CPython refcount/GC semantics assumed", "DESIGN.md §5 C48"),
+    "C49": B("for every mutating method/operator of MutableList/MutableDict/MutableSet obtained by reflection from list/dict/set (an un-overridden one cannot be missed): contents changed => changed() was called, contents equal the builtin's, parent flagged and stored value updated on SQLite; argument catalogue over containers <= 3. Bounded; the domain of method names is covered completely.",
+             "that a flagged parent survives every flush/pickle/merge path is only sampled", "DESIGN.md §5 C49"),
+    "C55": B("the pure-Python and compiled builds of the _*_cy modules are each checked against the same contracts (OrderedSet, IdentitySet, immutabledict, processors, _distill_params, BaseRow, result, anon_map) in two fresh processes and every case compared across builds; a stale .so is reported as not evaluated. Bounded exploration.",
+             "Cython is not installed: the .so cannot be rebuilt from an edited source; freshness decided from the source lines embedded in the generated .c", "DESIGN.md §5 C55"),
     "C20": B("inverse-pair contract make_url(u.render_as_string(hide_password=False)) == u on the real URL functions over ~3e5 URLs (all strings <= 3 of an adversarial alphabet per component, interacting pairs, hosts/ports table). Bounded exploration.",
              "urllib.parse quote/unquote and re are CPython's; canonical query forms only", "DESIGN.md §5 C20"),
     "C23": B("ghost nested-transaction model evaluated after every step of every operation sequence <= 5 (quick) / 6 (thorough) over 20 Connection/Transaction operations on file-backed SQLite with an independent observer connection. Bounded exploration.",
